@@ -38,6 +38,21 @@ func coqPlatP(p platform.Platform) string {
 }
 func coqPlat(p Plat) string { return coqPlatP(p.P()) }
 
+// vmRule: Windows and macOS hosts run Linux images in a VM, so whether such a host can run a linux entry is what a
+// linux host of the same architecture and variant could run - the OS versions of either side play no part.  Returns a
+// description when the implementation's Compatible breaks that relation.
+func vmRule(h, t Plat) string {
+	if (h.OS != "windows" && h.OS != "darwin" && h.OS != "macos") || t.OS != "linux" {
+		return ""
+	}
+	lh := h
+	lh.OS, lh.OSVer = "linux", ""
+	if got, want := platform.Compatible(h.P(), t.P()), platform.Compatible(lh.P(), t.P()); got != want {
+		return fmt.Sprintf("host %v can run linux entry %v: %v, but a linux host of the same architecture and variant: %v", h, t, got, want)
+	}
+	return ""
+}
+
 type Case struct {
 	Kind  string // search | pair | parse
 	Host  Plat
@@ -116,6 +131,9 @@ func runCaseRaw(c Case, res *lib.Result) string {
 			if platform.Compatible(hp, e.P()) {
 				anyCompat = true
 			}
+			if msg := vmRule(c.Host, e); msg != "" {
+				res.Fail("linux-entry-runnable-depends-on-host-os", msg, c)
+			}
 			if platform.Match(hp, e.P()) {
 				anyMatch = true
 			}
@@ -184,6 +202,9 @@ func runCaseRaw(c Case, res *lib.Result) string {
 		ob := platform.NewCompare(hp).Better(tp, pp)
 		if ob && platform.NewCompare(hp).Better(pp, tp) {
 			res.Fail("better-not-asymmetric", fmt.Sprintf("host %v: %v and %v are each better than the other", c.Host, c.T, c.P), c)
+		}
+		if msg := vmRule(c.Host, c.T); msg != "" {
+			res.Fail("linux-entry-runnable-depends-on-host-os", msg, c)
 		}
 		if om && !oc {
 			res.Fail("match-not-compatible", fmt.Sprintf("host %v matches %v but is not compatible", c.Host, c.T), c)
